@@ -48,7 +48,8 @@ class NS:
 
 class LoopSpec:
     def __init__(self, invariant, decreases=None, use=None, types=None, modifies=None, ghost_init=None,
-                 ghost_step=None):
+                 ghost_step=None, fresh_vars=None):
+        self.fresh_vars = fresh_vars  # names asserted (and checked) to hold arrays created inside this function
         self.invariant = invariant  # lambda s: [(name, formula)] or [formula]
         self.decreases = decreases  # lambda s: int term  (while loops)
         self.use = use  # lambda s: [lemma instance formulas]
@@ -151,6 +152,29 @@ class TClass(Type):
         return ctx.classref(self.qualname)
 
 
+class TRef(Type):
+    """the object already built for an earlier parameter (aliasing between parameters)"""
+
+    def __init__(self, param, path=()):
+        self.param, self.path = param, path
+
+    def fresh(self, ctx, name):
+        v = ctx.ghost["_args"][self.param]
+        for p in self.path:
+            v = v.fields[p]
+        return v
+
+
+class TPyList(Type):
+    """Python list of concrete length with the given element types"""
+
+    def __init__(self, *elts):
+        self.elts = elts
+
+    def fresh(self, ctx, name):
+        return PyList([t.fresh(ctx, "%s_%d" % (name, i)) for i, t in enumerate(self.elts)])
+
+
 class TTuple(Type):
     def __init__(self, *elts):
         self.elts = elts
@@ -193,6 +217,52 @@ class TSeq(Type):
             cn = self.elem.clsname
             wrap = lambda t: AObj(cn, t)  # noqa
         return SymList(Seq(n, cols), elem_wrap=wrap)
+
+
+CLASS_QUAL = {}  # short class name used in AObj -> qualified /repo class (for method lookup on abstract objects)
+ABSTRACT_FIELDS = {}  # class short name -> {field: Type}
+
+
+def _afun(cls, field, suffix, rng):
+    return z3.Function("%s.%s%s" % (cls, field, suffix), Ref, rng)
+
+
+def abstract_field_value(cls, field, t, term, interp):
+    """value of field `field` (declared type t) of the abstract object `term` of class cls"""
+    from .lib.arrays import TArr, Arr, arr_sort, dtype_of_sort
+    if isinstance(t, Prim):
+        return _afun(cls, field, "", t.sort)(term)
+    if isinstance(t, TArr):
+        dims = tuple(_afun(cls, field, ".dim%d" % d, Int)(term) for d in range(t.ndim))
+        for d in dims:
+            interp.ctx.assume(d >= 0)
+        r = Arr(dims, _afun(cls, field, "", arr_sort(t.elem, t.ndim))(term), t.dtype or dtype_of_sort(t.elem), fresh=False)
+        r.readonly = True
+        return r
+    if isinstance(t, TTuple):
+        return tuple(abstract_field_value(cls, "%s.%d" % (field, k), e, term, interp) for k, e in enumerate(t.elts))
+    if isinstance(t, TAObj):
+        return AObj(t.clsname, _afun(cls, field, "", t.sort)(term))
+    if isinstance(t, TSeq):
+        n = _afun(cls, field, ".len", Int)(term)
+        interp.ctx.assume(n >= 0)
+        if isinstance(t.elem, TAObj):
+            cn = t.elem.clsname
+            return SymList(Seq(n, _afun(cls, field, "", z3.ArraySort(Int, t.elem.sort))(term)), elem_wrap=lambda x: AObj(cn, x))
+        if isinstance(t.elem, Prim):
+            return SymList(Seq(n, _afun(cls, field, "", z3.ArraySort(Int, t.elem.sort))(term)))
+    raise Unsupported("abstract field of type %r" % (t,))
+
+
+def abstract_class(short, qual, fields):
+    """Declare an immutable abstract view of a /repo class: fields become uninterpreted functions of the token;
+    every other attribute is resolved on the real class (methods/properties run with self = the token)."""
+    CLASS_QUAL[short] = qual
+    ABSTRACT_FIELDS[short] = dict(fields)
+    model = CLASS_MODELS.setdefault(short, {})
+    for f, t in fields.items():
+        model[f] = (lambda i, p, _f=f, _t=t: abstract_field_value(short, _f, _t, p.term, i))
+    return model
 
 
 def _tseq_empty(self, ctx, name):
@@ -251,6 +321,26 @@ class Lemma:
 USED_LEMMAS = set()
 
 
+class Forall:
+    """Universally quantified clause with proof hints.
+       vars_: [(name, sort)], body: f(*vars) -> formula, patterns: f(*vars) -> [pattern terms] (for use as a hypothesis),
+       hints: f(*consts) -> [ground terms] that are mentioned as seeds for E-matching when the clause is *proved*
+       (the engine skolemises the quantifier itself, so hints can mention the skolem constants)."""
+
+    def __init__(self, vars_, body, patterns=None, hints=None):
+        self.vars_, self.body, self.patterns, self.hints = vars_, body, patterns, hints
+
+    def as_formula(self):
+        vs = [z3.Const(n, srt) for n, srt in self.vars_]
+        pats = self.patterns(*vs) if self.patterns else []
+        return z3.ForAll(vs, self.body(*vs), patterns=pats) if pats else z3.ForAll(vs, self.body(*vs))
+
+    def skolemized(self, ctx):
+        cs = [ctx.fresh("sk_" + n, srt) for n, srt in self.vars_]
+        seeds = self.hints(*cs) if self.hints else []
+        return cs, seeds, self.body(*cs)
+
+
 def z3and(xs):
     xs = [x if is_z3(x) else z3.BoolVal(bool(x)) for x in xs]
     if not xs:
@@ -263,7 +353,7 @@ def named(items, prefix):
     out = []
     for i, it in enumerate(items):
         if isinstance(it, tuple) and len(it) == 2 and isinstance(it[0], str):
-            out.append((it[0], it[1] if is_z3(it[1]) else z3.BoolVal(bool(it[1]))))
+            out.append((it[0], it[1] if (is_z3(it[1]) or isinstance(it[1], Forall)) else z3.BoolVal(bool(it[1]))))
         else:
-            out.append(("%s%d" % (prefix, i), it if is_z3(it) else z3.BoolVal(bool(it))))
+            out.append(("%s%d" % (prefix, i), it if (is_z3(it) or isinstance(it, Forall)) else z3.BoolVal(bool(it))))
     return out
